@@ -365,10 +365,21 @@ func vfGenC01(rt *rapid.T) vfC01Case {
 		cs.Cfg.SegC2S, cs.Cfg.SegS2C = vfSeg{}, vfSeg{}
 		cs.StallSaveMs = 3300
 	}
-	if cs.StallSaveMs == 0 && total > 20000 && total < 400000 && (cs.Cfg.Bufsize == 0 || cs.Cfg.Bufsize >= 65536) && cs.Cfg.Protocol >= 2 && rapid.IntRange(0, 5).Draw(rt, "long_line") == 3 {
-		// (a few dozen chunks at most: with a window of a few chunks per round trip anything longer only costs time)
-		cs.AckLatencyMs = rapid.SampledFrom([]int{600, 750, 1300, 2200}).Draw(rt, "ack_latency")
-		cs.Cfg.Timeout = 20
+	{
+		// a few files and a few dozen chunks at most: every file costs several round trips, and with a window of a few chunks per
+		// round trip anything longer only costs time
+		nfiles, bytes := 0, int64(0)
+		for _, p := range cs.Paths {
+			for _, f := range p.Tree.Files {
+				nfiles++
+				bytes += f.Size
+			}
+		}
+		if cs.StallSaveMs == 0 && nfiles <= 3 && bytes > 20000 && bytes < 400000 && (cs.Cfg.Bufsize == 0 || cs.Cfg.Bufsize >= 65536) && cs.Cfg.Protocol >= 2 &&
+			!cs.AlsoSub && rapid.IntRange(0, 5).Draw(rt, "long_line") == 3 {
+			cs.AckLatencyMs = rapid.SampledFrom([]int{600, 750, 1300, 2200}).Draw(rt, "ack_latency")
+			cs.Cfg.Timeout = 20
+		}
 	}
 	// duplicate base names with -y are refused by design
 	if cs.Cfg.Overwrite {
